@@ -27,7 +27,7 @@ RULE = ("cases: PDAG codes (base-4 digit per node pair) with acyclic directed pa
 ASSUMPTIONS = ["brute-force oracle over python ints is correct (self-check: number of DAGs / classes per p recomputed each run)",
                "PDAG inputs with a cyclic directed part are outside the property's quantifier and only counted"]
 EXHAUSTIVE = {"quick": True, "thorough": True}
-SOFT_LIMIT = {"quick": 240, "thorough": 1700}
+SOFT_LIMIT = {"quick": 1200, "thorough": 5400}      # generous wall-clock watchdogs (a loaded machine must not cut a workload short); normal run times are in the evidence
 REQUIRED_FUNCS = ["sempler/utils.py:mec", "sempler/utils.py:all_dags", "sempler/utils.py:is_consistent_extension"]
 REQUIRED_COUNTERS = {"quick": {"all_dags:empty": 50, "all_dags:multi": 200, "ice:true": 500, "ice:false": 500, "mec:chain-shortcut": 5, "embedded:max-label>=8": 500},
                      "thorough": {"all_dags:empty": 500, "all_dags:multi": 2000, "ice:true": 5000, "ice:false": 5000, "mec:chain-shortcut": 5, "embedded:max-label>=8": 500}}
